@@ -1,35 +1,5 @@
-import MxModel.Edit.Machine
-open MxModel MxModel.Exec MxModel.Edit
-
-def mulK (k : Int) : Option Val → SProg
-  | some (.int v) => .ret (.int (v * k))
-  | some .none => .raise (.user 3)
-  | none => .raise (.user 4)
-
-def eP : Params where
-  srcOf := fun v _ => match v with
-    | 0 => SProg.readN "y" (mulK 2) (.raise (.user 3)) (.raise (.user 4))
-    | _ => SProg.readN "y" (mulK 3) (.raise (.user 3)) (.raise (.user 4))
-  valOf := fun v => .int v
-  flagOf := fun _ => true
-  anOf := fun _ => false
-  maxdepth := 50
-  kw := []
-
-def eOps : List Op := [
-  .struct (.newSpace [] "Base" [] []),
-  .struct (.newCells ["Base"] "f" "f" 0),
-  .struct (.setRef ["Base"] "y" 1),
-  .struct (.newSpace [] "Sub" [["Base"]] []),
-  .struct (.setRef ["Sub"] "y" 10),
-  .eval ["Sub"] "f" [],
-  .eval ["Base"] "f" [],
-  .struct (.setFormula ["Base"] "f" 1),
-  .eval ["Sub"] "f" []]
-
-#eval (run eP {} (eOps.take 7)).ex.data
-#eval (run eP {} (eOps.take 8)).ex.data
-#eval (run eP {} eOps).ex.data
-#eval (run eP {} eOps).tabs
-#eval answer eP (run eP {} eOps) ["Sub"] "f" []
-#eval (List.range 10).map (fun k => stepCovered eP (run eP {} (eOps.take k)) (eOps.getD k (.clear [] "")))
+import MxModel.Props.C02
+#print axioms MxModel.C02.machine_keeps_ci
+#print axioms MxModel.C02.live_equals_edits_only
+#print axioms MxModel.C02.clearing_covers_every_change
+#print axioms MxModel.C02.no_stale_value_after_any_structural_history
